@@ -13,6 +13,7 @@ from gv.astutil import names_in
 from gv.astutil import norm_stmt
 from gv.astutil import stmts_of
 from gv.astutil import walk_body
+from gv.dataflow import SymValues
 from gv.props import describe
 from gv.report import Ctx
 from gv.report import cname
@@ -144,48 +145,258 @@ def check_kernels(ctx: Ctx) -> None:
     ctx.floor("18.1-derivative", 7)
     extra = sorted(set(m[4:] for m in ders.methods if m.startswith("der_")) - set(names))
     ctx.ob("18.1-exists", cname(RBF, "RBFRegressor.RBFDerivatives"), not extra, f"derivatives without a kernel of that name: {extra}", node=ders.node, stmt="no orphan derivative")
-    # the Jacobian routine
+    # the Jacobian routine: every fact is asked of the expressions with the locals unfolded, so that a value written in
+    # place, through a local or through a renamed local is the same thing
     f = ctx.index.method(RBF, "RBFRegressor", "_predict_jacobian")
     con = cname(RBF, "RBFRegressor", "_predict_jacobian")
-    sel = [c for c in walk_body(f) if isinstance(c, ast.Call) and dotted(c.func) == "getattr"]
-    ok = len(sel) == 1 and norm_stmt(sel[0].args[0]) == "self.RBFDerivatives" and isinstance(sel[0].args[1], ast.JoinedStr) and norm_stmt(sel[0].args[1]) == "f'der_{self.function}'"
+    sv = SymValues(f)
+    sel = [c for c in walk_body(f) if _is_getattr(c)]
+    ok = len(sel) == 1 and len(sel[0].args) == 2 and sv.texts(sel[0].args[0]) == ["self.RBFDerivatives"]
+    if ok:
+        alts = [_str_pieces(e) for e in sv.exprs(sel[0].args[1])]
+        ok = all(len(a) == 2 and a[0] == "der_" and isinstance(a[1], ast.AST) and norm_stmt(a[1]) == "self.function" for a in alts)
+    # the call of the selected derivative: the callee is the getattr above, at most behind the user-given derivative
+    call = [c for c in walk_body(f) if isinstance(c, ast.Call) and not _is_getattr(c) and any(_has_getattr(e) for e in sv.exprs(c.func))]
+    ok = ok and len(call) == 1 and all(_only_user_given_before(e) for e in sv.exprs(call[0].func))
     ctx.ob("18.1-dispatch", con, ok, "the derivative must be selected by the name of the kernel the model was built with", node=(sel or [f])[0])
-    call = [c for c in walk_body(f) if isinstance(c, ast.Call) and dotted(c.func) == "der_func"]
-    ok = len(call) == 1 and [dotted(a) for a in call[0].args] == ["diffs", "dists"] and any(k.arg == "eps" and norm_stmt(k.value) == "self.algo.epsilon" for k in call[0].keywords)
+    a_diff = a_dist = a_eps = None
+    if len(call) == 1 and not any(isinstance(a, ast.Starred) for a in call[0].args) and all(k.arg for k in call[0].keywords):
+        c = call[0]
+        kws = {k.arg: k.value for k in c.keywords}
+        # 18.1-signature makes (input_data, norm_input_data, eps) the parameters of every derivative, in that order
+        pos = dict(zip(("input_data", "norm_input_data", "eps"), c.args))
+        if len(c.args) <= 3 and not set(pos) & set(kws) and set(pos) | set(kws) == {"input_data", "norm_input_data", "eps"}:
+            a_diff, a_dist, a_eps = ({**pos, **kws}[n] for n in ("input_data", "norm_input_data", "eps"))
+    ok = a_eps is not None and sv.texts(a_eps) == ["self.algo.epsilon"]
     ctx.ob("18.1-dispatch", con, ok, "the derivative must be evaluated at (differences, distances) with the SciPy model's own epsilon", node=(call or [f])[0])
-    defs = {dotted(s.targets[0]): s for s in stmts_of(f) if isinstance(s, ast.Assign)}
-    ok = "diffs" in defs and isinstance(defs["diffs"].value, ast.BinOp) and isinstance(defs["diffs"].value.op, ast.Sub) and dotted(defs["diffs"].value.left) == "input_data" and dotted(defs["diffs"].value.right) == "ref_points"
-    ctx.ob("18.1-dispatch", con, ok, "differences are query point minus learning point (the sign of the Jacobian depends on it)", node=defs.get("diffs", f))
-    ok = "ref_points" in defs and "self.algo.xi" in norm_stmt(defs["ref_points"].value) and "nodes" in defs and "self.algo.nodes" in norm_stmt(defs["nodes"].value)
-    ctx.ob("18.1-dispatch", con, ok, "learning points and weights are those of the fitted SciPy model", node=defs.get("ref_points", f), stmt="xi and nodes of self.algo")
-    ok = "dists" in defs and isinstance(defs["dists"].value, ast.Subscript) and isinstance(defs["dists"].value.value, ast.Call) and last_attr(defs["dists"].value.value) == "norm" and dotted(defs["dists"].value.value.args[0]) == "diffs" and any(k.arg == "axis" and getattr(k.value, "value", None) == 2 for k in defs["dists"].value.value.keywords)
-    ctx.ob("18.1-dispatch", con, ok, "distances are the norms of the differences over the input axis", node=defs.get("dists", f))
+    query = f.args.args[1].arg
+    diff_alts = sv.exprs(a_diff) if a_diff is not None else []
+    ok = bool(diff_alts)
+    xi_ok = bool(diff_alts)
+    for e in diff_alts:
+        lr = _difference(e)
+        ok = ok and lr is not None and query in names_in(lr[0]) and "self.algo" not in ast.unparse(lr[0]) and query not in names_in(lr[1])
+        xi_ok = xi_ok and lr is not None and _reads(lr[1], "self.algo.xi")
+    ctx.ob("18.1-dispatch", con, ok, "differences are query point minus learning point (the sign of the Jacobian depends on it)", node=a_diff if a_diff is not None else f)
+    dist_alts = sv.exprs(a_dist) if a_dist is not None else []
+    ok = bool(dist_alts) and all(_norm_over_inputs(e, {ast.unparse(d) for d in diff_alts}) for e in dist_alts)
+    ctx.ob("18.1-dispatch", con, ok, "distances are the norms of the differences over the input axis", node=a_dist if a_dist is not None else f)
     rets = [s for s in stmts_of(f) if isinstance(s, ast.Return)]
-    ok = len(rets) == 1 and isinstance(rets[0].value, ast.Call) and last_attr(rets[0].value) == "sum" and isinstance(rets[0].value.func.value, ast.BinOp) and isinstance(rets[0].value.func.value.op, ast.Mult) and "nodes" in names_in(rets[0].value.func.value) and call and call[0] in list(ast.walk(rets[0].value))
+    ok = nodes_ok = len(rets) == 1 and rets[0].value is not None and len(call) == 1
+    for e in sv.exprs(rets[0].value) if ok else []:
+        summed = _summed_over_last(e)
+        facs = (summed.left, summed.right) if isinstance(summed, ast.BinOp) and isinstance(summed.op, ast.Mult) else None
+        ders_ = set(sv.texts(call[0]))  # the derivative call above, unfolded
+        der = [x for x in facs or () if ast.unparse(x) in ders_]
+        wts = [x for x in facs or () if not any(ast.unparse(n) in ders_ for n in ast.walk(x) if isinstance(n, ast.Call))]
+        ok = ok and len(der) == 1 and len(wts) == 1
+        nodes_ok = nodes_ok and len(wts) == 1 and _reads(wts[0], "self.algo.nodes")
+    ctx.ob("18.1-dispatch", con, bool(xi_ok and nodes_ok), "learning points and weights are those of the fitted SciPy model", node=(rets or [f])[0], stmt="xi and nodes of self.algo")
     ctx.ob("18.1-dispatch", con, bool(ok), "the Jacobian is the sum over the learning points of weight x kernel derivative", node=(rets or [f])[0])
     # the value side uses the same model
     p = ctx.index.method(RBF, "RBFRegressor", "_predict")
-    ok = any(isinstance(c, ast.Call) and dotted(c.func) == "self.algo" for c in walk_body(p))
+    svp = SymValues(p)
+    ok = any(isinstance(c, ast.Call) and "self.algo" in svp.texts(c.func) for c in walk_body(p))
     ctx.ob("18.1-dispatch", cname(RBF, "RBFRegressor", "_predict"), ok, "predictions come from the same fitted SciPy model", node=p, stmt="predict with self.algo")
     fit = ctx.index.method(RBF, "RBFRegressor", "_fit")
+    svf = SymValues(fit)
     ctor = [c for c in walk_body(fit) if isinstance(c, ast.Call) and dotted(c.func) == "Rbf"]
-    kw = {k.arg: norm_stmt(k.value) for k in ctor[0].keywords} if ctor else {}
-    ok = kw.get("function") == "self._settings.function" and kw.get("epsilon") == "self._settings.epsilon"
+    kw = {k.arg: svf.texts(k.value) for k in ctor[0].keywords} if len(ctor) == 1 else {}
+    ok = kw.get("function") == ["self._settings.function"] and kw.get("epsilon") == ["self._settings.epsilon"]
     ctx.ob("18.1-dispatch", cname(RBF, "RBFRegressor", "_fit"), ok, "the SciPy model is built with the kernel and the epsilon of the settings", node=(ctor or [fit])[0])
+
+
+def _is_getattr(n: ast.AST) -> bool:
+    return isinstance(n, ast.Call) and dotted(n.func) == "getattr"
+
+
+def _has_getattr(e: ast.AST) -> bool:
+    """``e`` (a callee) is the derivative looked up by getattr, possibly behind a user-given one (``a or getattr(..)``,
+    ``a if c else getattr(..)``)."""
+    if isinstance(e, ast.BoolOp):
+        return any(_has_getattr(v) for v in e.values)
+    if isinstance(e, ast.IfExp):
+        return _has_getattr(e.body) or _has_getattr(e.orelse)
+    return _is_getattr(e)
+
+
+def _only_user_given_before(e: ast.AST) -> bool:
+    """The callee ``e`` is the looked-up derivative, or the user's own ``self.der_function`` when there is one: nothing
+    else can take the place of the derivative named after the kernel."""
+    if isinstance(e, ast.BoolOp) and isinstance(e.op, ast.Or):
+        return all(dotted(v) == "self.der_function" for v in e.values[:-1]) and _only_user_given_before(e.values[-1])
+    if isinstance(e, ast.IfExp):
+        return all(dotted(v) == "self.der_function" or _only_user_given_before(v) for v in (e.body, e.orelse)) and _has_getattr(e)
+    return _is_getattr(e) or dotted(e) == "self.der_function"
+
+
+def _reads(e: ast.AST, path: str) -> bool:
+    """``e`` reads the attribute path ``path`` (e.g. self.algo.xi), whatever is done to it afterwards."""
+    return any(isinstance(n, ast.Attribute) and dotted(n) == path for n in ast.walk(e))
+
+
+def _str_pieces(e: ast.AST) -> list:
+    """A string-building expression as its pieces, literal text (str, adjacent ones merged) and embedded expressions
+    (ast): f"der_{x}", "der_" + x, "der_%s" % x, "der_{}".format(x) and "".join(("der_", x)) are all ["der_", x]."""
+
+    def pieces(e):
+        if isinstance(e, ast.Constant) and isinstance(e.value, str):
+            return [e.value]
+        if isinstance(e, ast.JoinedStr):
+            out = []
+            for v in e.values:
+                if isinstance(v, ast.FormattedValue):
+                    if v.conversion not in (-1, 115) or v.format_spec is not None:
+                        return [e]
+                    out += pieces(v.value)
+                else:
+                    out += pieces(v)
+            return out
+        if isinstance(e, ast.BinOp) and isinstance(e.op, ast.Add):
+            return pieces(e.left) + pieces(e.right)
+        if isinstance(e, ast.Call) and dotted(e.func) == "str" and len(e.args) == 1 and not e.keywords:
+            return pieces(e.args[0])
+        fmt = args = None
+        if isinstance(e, ast.BinOp) and isinstance(e.op, ast.Mod) and isinstance(e.left, ast.Constant) and isinstance(e.left.value, str):
+            fmt, args, hole = e.left.value, (e.right.elts if isinstance(e.right, ast.Tuple) else [e.right]), "%s"
+            if "%" in fmt.replace("%s", ""):
+                return [e]
+        elif isinstance(e, ast.Call) and isinstance(e.func, ast.Attribute) and e.func.attr == "format" and isinstance(e.func.value, ast.Constant) and isinstance(e.func.value.value, str) and not e.keywords:
+            fmt, args, hole = e.func.value.value, e.args, "{}"
+            if "{" in fmt.replace("{}", "") or "}" in fmt.replace("{}", ""):
+                return [e]
+        elif isinstance(e, ast.Call) and isinstance(e.func, ast.Attribute) and e.func.attr == "join" and isinstance(e.func.value, ast.Constant) and e.func.value.value == "" and len(e.args) == 1 and isinstance(e.args[0], (ast.Tuple, ast.List)) and not e.keywords:
+            return [x for a in e.args[0].elts for x in pieces(a)]
+        if fmt is not None:
+            lits = fmt.split(hole)
+            if len(lits) != len(args) + 1 or any(isinstance(a, ast.Starred) for a in args):
+                return [e]
+            out = [lits[0]]
+            for a, lit in zip(args, lits[1:]):
+                out += [*pieces(a), lit]
+            return out
+        return [e]
+
+    out: list = []
+    for x in pieces(e):
+        if isinstance(x, str) and not x:
+            continue
+        if isinstance(x, str) and out and isinstance(out[-1], str):
+            out[-1] += x
+        else:
+            out.append(x)
+    return out
+
+
+def _difference(e: ast.AST):
+    """(a, b) when ``e`` is a - b, also spelled subtract(a, b)."""
+    if isinstance(e, ast.BinOp) and isinstance(e.op, ast.Sub):
+        return e.left, e.right
+    if isinstance(e, ast.Call) and last_attr(e) == "subtract" and len(e.args) == 2 and not e.keywords:
+        return e.args[0], e.args[1]
+    return None
+
+
+def _is_none_axis(e: ast.AST) -> bool:
+    return dotted(e) in ("newaxis", "np.newaxis", "numpy.newaxis") or (isinstance(e, ast.Constant) and e.value is None)
+
+
+def _is_full_slice(e: ast.AST) -> bool:
+    return isinstance(e, ast.Slice) and e.lower is None and e.upper is None and e.step is None
+
+
+def _int(e: ast.AST | None):
+    if isinstance(e, ast.UnaryOp) and isinstance(e.op, ast.USub) and isinstance(e.operand, ast.Constant) and type(e.operand.value) is int:
+        return -e.operand.value
+    return e.value if isinstance(e, ast.Constant) and type(e.value) is int else None
+
+
+def _kw(call: ast.Call, name: str) -> ast.AST | None:
+    return next((k.value for k in call.keywords if k.arg == name), None)
+
+
+def _norm_over_inputs(e: ast.AST, diffs: set[str]) -> bool:
+    """``e`` is the Euclidean norm of (one of the texts) ``diffs`` over axis 2 of the 4-d array (samples, outputs,
+    inputs, learning samples), the reduced axis kept as an axis of length 1: norm(d, axis=2)[:, :, newaxis],
+    norm(d, axis=2, keepdims=True) or expand_dims(norm(d, axis=2), 2)."""
+    kept = False
+    if isinstance(e, ast.Subscript):
+        idx = e.slice.elts if isinstance(e.slice, ast.Tuple) else [e.slice]
+        if not (len(idx) in (3, 4) and _is_full_slice(idx[0]) and _is_full_slice(idx[1]) and _is_none_axis(idx[2]) and all(_is_full_slice(i) or (isinstance(i, ast.Constant) and i.value is Ellipsis) for i in idx[3:])):
+            return False
+        kept, e = True, e.value
+    elif isinstance(e, ast.Call) and last_attr(e) == "expand_dims" and e.args:
+        ax = _kw(e, "axis") if len(e.args) == 1 else e.args[1] if len(e.args) == 2 else None
+        if _int(ax) not in (2, -2):
+            return False
+        kept, e = True, e.args[0]
+    if not (isinstance(e, ast.Call) and last_attr(e) == "norm" and len(e.args) == 1 and ast.unparse(e.args[0]) in diffs):
+        return False
+    kws = {k.arg: k.value for k in e.keywords}
+    if set(kws) - {"axis", "keepdims", "ord"} or _int(kws.get("axis")) not in (2, -2):  # the axis of the 4-d argument
+        return False
+    if "ord" in kws and not ((isinstance(kws["ord"], ast.Constant) and kws["ord"].value in (None, 2))):
+        return False
+    keep = kws.get("keepdims")
+    keep = isinstance(keep, ast.Constant) and keep.value is True if keep is not None else False
+    return keep != kept
+
+
+def _summed_over_last(e: ast.AST) -> ast.AST | None:
+    """x when ``e`` is the sum of x over its last axis (the learning samples of the 4-d array): x.sum(-1), x.sum(axis=-1),
+    sum(x, axis=-1) of numpy, with 3 for -1."""
+    if not (isinstance(e, ast.Call) and last_attr(e) == "sum"):
+        return None
+    if isinstance(e.func, ast.Attribute) and dotted(e.func.value) not in ("np", "numpy"):
+        x, rest = e.func.value, e.args
+    elif e.args:
+        x, rest = e.args[0], e.args[1:]
+    else:
+        return None
+    if isinstance(e.func, ast.Name) and not e.keywords:
+        return None  # the builtin sum adds along the FIRST axis
+    ax = rest[0] if len(rest) == 1 and not e.keywords else _kw(e, "axis") if not rest and [k.arg for k in e.keywords] == ["axis"] else None
+    return x if _int(ax) in (-1, 3) else None
+
+
+def _flat_of(e: ast.AST) -> str | None:
+    """The name v when ``e`` is v with at most its shape flattened: v.flatten() / v.ravel() / v.copy(), v.reshape(-1),
+    v.reshape((-1,)), ravel(v), reshape(v, -1)."""
+    if not (isinstance(e, ast.Call) and not e.keywords):
+        return None
+    minus_one = lambda a: _int(a) == -1 or (isinstance(a, ast.Tuple) and len(a.elts) == 1 and _int(a.elts[0]) == -1)  # noqa: E731
+    if isinstance(e.func, ast.Attribute) and isinstance(e.func.value, ast.Name) and e.func.value.id not in ("np", "numpy"):
+        if (e.func.attr in ("flatten", "ravel", "copy") and not e.args) or (e.func.attr == "reshape" and len(e.args) == 1 and minus_one(e.args[0])):
+            return e.func.value.id
+        return None
+    fn = last_attr(e)
+    if (fn == "ravel" and len(e.args) == 1) or (fn == "reshape" and len(e.args) == 2 and minus_one(e.args[1])):
+        return dotted(e.args[0]) if isinstance(e.args[0], ast.Name) else None
+    return None
+
+
+def _only_argument(call: ast.Call, name: str) -> ast.AST | None:
+    """The single argument of a call, given by position or under the keyword ``name``."""
+    if len(call.args) == 1 and not call.keywords and not isinstance(call.args[0], ast.Starred):
+        return call.args[0]
+    if not call.args and [k.arg for k in call.keywords] == [name]:
+        return call.keywords[0].value
+    return None
 
 
 def check_surrogate(ctx: Ctx) -> None:
     f = ctx.index.method(SUR, "SurrogateDiscipline", "_run")
     con = cname(SUR, "SurrogateDiscipline", "_run")
     pr = [c for c in walk_body(f) if isinstance(c, ast.Call) and norm_stmt(c.func) == "self.regression_model.predict"]
-    ok = len(pr) == 1 and dotted(pr[0].args[0]) == f.args.args[1].arg
+    at = _only_argument(pr[0], "input_data") if len(pr) == 1 else None
+    ok = at is not None and SymValues(f).texts(at) == [f.args.args[1].arg]
     ctx.ob("18.2-predict", con, ok, "the surrogate discipline must predict at its own input data", node=(pr or [f])[0])
     loops = [s for s in stmts_of(f) if isinstance(s, ast.For) and pr and pr[0] in list(ast.walk(s.iter))]
     ok = len(loops) == 1 and isinstance(loops[0].target, ast.Tuple)
     if ok:
         nm, val = (dotted(e) for e in loops[0].target.elts)
         st = [s for s in ast.walk(loops[0]) if isinstance(s, ast.Assign) and isinstance(s.targets[0], ast.Subscript)]
-        ok = len(st) == 1 and dotted(st[0].targets[0].slice) == nm and isinstance(st[0].value, ast.Call) and last_attr(st[0].value) in ("flatten", "ravel", "copy") and dotted(st[0].value.func.value) == val
+        ok = len(st) == 1 and dotted(st[0].targets[0].slice) == nm and _flat_of(st[0].value) == val
         rets = [s for s in stmts_of(f) if isinstance(s, ast.Return)]
         ok = ok and len(rets) == 1 and dotted(rets[0].value) == dotted(st[0].targets[0].value)
     if not ok:
@@ -194,7 +405,7 @@ def check_surrogate(ctx: Ctx) -> None:
         if len(comps) == 1 and len(comps[0].value.generators) == 1 and not comps[0].value.generators[0].ifs and isinstance(comps[0].value.generators[0].target, ast.Tuple):
             dc = comps[0].value
             nm, val = (dotted(e) for e in dc.generators[0].target.elts)
-            ok = dotted(dc.key) == nm and isinstance(dc.value, ast.Call) and last_attr(dc.value) in ("flatten", "ravel", "copy") and dotted(dc.value.func.value) == val
+            ok = dotted(dc.key) == nm and _flat_of(dc.value) == val
             rets = [s for s in stmts_of(f) if isinstance(s, ast.Return)]
             ok = ok and len(rets) == 1 and (rets[0] is comps[0] or dotted(rets[0].value) == dotted(comps[0].targets[0]))
             loops = comps
@@ -202,7 +413,7 @@ def check_surrogate(ctx: Ctx) -> None:
     g = ctx.index.method(SUR, "SurrogateDiscipline", "_compute_jacobian")
     cong = cname(SUR, "SurrogateDiscipline", "_compute_jacobian")
     st = [s for s in stmts_of(g) if isinstance(s, ast.Assign) and dotted(s.targets[0]) == "self.jac"]
-    ok = len(st) == 1 and isinstance(st[0].value, ast.Call) and norm_stmt(st[0].value.func) == "self.regression_model.predict_jacobian" and norm_stmt(st[0].value.args[0]) == "self.io.get_input_data()"
+    ok = len(st) == 1 and isinstance(st[0].value, ast.Call) and norm_stmt(st[0].value.func) == "self.regression_model.predict_jacobian" and _only_argument(st[0].value, "input_data") is not None and SymValues(g).texts(_only_argument(st[0].value, "input_data")) == ["self.io.get_input_data()"]
     ctx.ob("18.2-jacobian", cong, ok, "the Jacobian of the surrogate discipline must be the model's predicted Jacobian at the discipline's current input data", node=(st or [g])[0])
     others = [s for s in stmts_of(g) if isinstance(s, (ast.AugAssign,)) or (isinstance(s, ast.Assign) and isinstance(s.targets[0], ast.Subscript) and "jac" in norm_stmt(s.targets[0]))]
     ctx.ob("18.2-jacobian", cong, not others, "the predicted Jacobian must not be altered", node=(others or [g])[0], stmt="no further edit of self.jac")
@@ -210,6 +421,88 @@ def check_surrogate(ctx: Ctx) -> None:
 
 PIP = "mlearning/transformers/pipeline.py"
 MOE = "mlearning/regression/algos/moe.py"
+
+
+def _stages(loop: ast.For, seq: str):
+    """(text of the current element, visited last to first?) when ``loop`` visits every element of ``seq`` once, in order
+    or in reverse order, by element, by enumerate or by index; None otherwise."""
+
+    def whole(e, rev=False):  # (expr, reversed?) -> reversed? when e is seq possibly reversed / copied
+        if isinstance(e, ast.Call) and dotted(e.func) in ("list", "tuple") and len(e.args) == 1 and not e.keywords:
+            return whole(e.args[0], rev)
+        if isinstance(e, ast.Call) and dotted(e.func) == "reversed" and len(e.args) == 1 and not e.keywords:
+            return whole(e.args[0], not rev)
+        if isinstance(e, ast.Subscript) and isinstance(e.slice, ast.Slice) and e.slice.lower is None and e.slice.upper is None:
+            if e.slice.step is None or _int(e.slice.step) == 1:
+                return whole(e.value, rev)
+            if _int(e.slice.step) == -1:
+                return whole(e.value, not rev)
+            return None
+        return rev if norm_stmt(e) == seq else None
+
+    def indices(e, rev=False):  # e enumerates the indices of seq: range(len(seq)), reversed(..), range(len(seq) - 1, -1, -1)
+        if isinstance(e, ast.Call) and dotted(e.func) == "reversed" and len(e.args) == 1 and not e.keywords:
+            return indices(e.args[0], not rev)
+        if not (isinstance(e, ast.Call) and dotted(e.func) == "range" and not e.keywords):
+            return None
+        n = f"len({seq})"
+        a = [norm_stmt(x) for x in e.args]
+        if a in ([n], ["0", n], ["0", n, "1"]):
+            return rev
+        if a == [f"{n} - 1", "-1", "-1"]:
+            return not rev
+        return None
+
+    it, tg = loop.iter, loop.target
+    if isinstance(tg, ast.Name):
+        r = whole(it)
+        if r is not None:
+            return tg.id, r
+        r = indices(it)
+        if r is not None:
+            return f"{seq}[{tg.id}]", r
+    if isinstance(tg, ast.Tuple) and len(tg.elts) == 2 and all(isinstance(e, ast.Name) for e in tg.elts) and isinstance(it, ast.Call) and dotted(it.func) == "enumerate" and len(it.args) == 1 and not it.keywords:
+        r = whole(it.args[0])
+        if r is not None:
+            return tg.elts[1].id, r
+    return None
+
+
+def _after_one_pass(loop: ast.For, names: list[str]) -> list[list[ast.AST]] | None:
+    """The values of the locals ``names`` at the end of one pass through the body of ``loop`` as expressions of the
+    values at its start (the body unfolded as a piece of code of its own); None when a pass may be cut short."""
+    import copy
+
+    if any(isinstance(n, (ast.Break, ast.Continue, ast.Return, ast.Raise)) for st in loop.body for n in ast.walk(st)) or loop.orelse:
+        return None
+    ret = ast.Return(value=ast.Tuple(elts=[ast.Name(id=n, ctx=ast.Load()) for n in names], ctx=ast.Load()))
+    fn = ast.FunctionDef(name="_one_pass", args=ast.arguments(posonlyargs=[], args=[], kwonlyargs=[], kw_defaults=[], defaults=[]), body=[*copy.deepcopy(loop.body), ret], decorator_list=[], type_params=[])
+    fn = ast.fix_missing_locations(ast.copy_location(fn, loop))
+    out = []
+    for e in SymValues(fn).exprs(ret.value):
+        if not (isinstance(e, ast.Tuple) and len(e.elts) == len(names)):
+            return None
+        out.append(list(e.elts))
+    return out
+
+
+def _product(v: ast.AST):
+    """(left, right) of a matrix product a @ b, matmul(a, b), dot(a, b), a.dot(b)."""
+    if isinstance(v, ast.BinOp) and isinstance(v.op, ast.MatMult):
+        return v.left, v.right
+    if isinstance(v, ast.Call) and not v.keywords and last_attr(v) in ("matmul", "dot") and len(v.args) == 2:
+        return v.args[0], v.args[1]
+    if isinstance(v, ast.Call) and not v.keywords and last_attr(v) == "dot" and len(v.args) == 1:
+        return v.func.value, v.args[0]
+    return None
+
+
+def _applies(e: ast.AST, callee: str, arg: str | None) -> bool:
+    """``e`` is callee(arg) -- callee(<anything>) when arg is None -- the single argument possibly by keyword ``data``."""
+    if not (isinstance(e, ast.Call) and norm_stmt(e.func) == callee):
+        return False
+    a = _only_argument(e, "data")
+    return a is not None and (arg is None or norm_stmt(a) == arg)
 
 
 def check_pipeline(ctx: Ctx) -> None:
@@ -220,36 +513,36 @@ def check_pipeline(ctx: Ctx) -> None:
         con = cname(PIP, "Pipeline", jname)
         data = [a.arg for a in f.args.args if a.arg != "self"][0]
         loops = [s for s in stmts_of(f) if isinstance(s, ast.For)]
-        ok = len(loops) == 1 and isinstance(loops[0].target, ast.Name)
+        rets = [s for s in stmts_of(f) if isinstance(s, ast.Return)]
+        acc = rets[0].value.id if len(rets) == 1 and isinstance(rets[0].value, ast.Name) else None
+        ok = len(loops) == 1 and acc is not None
         order_ok = prod_ok = at_ok = False
         if ok:
             lp = loops[0]
-            t = lp.target.id
-            it = norm_stmt(lp.iter)
-            order_ok = it in (("self.transformers[::-1]", "reversed(self.transformers)") if reverse else ("self.transformers",))
-            jac_st = [s for s in lp.body if isinstance(s, ast.Assign) and any(isinstance(c, ast.Call) and norm_stmt(c.func) == f"{t}.{jname}" for c in ast.walk(s.value))]
-            dat_st = [s for s in lp.body if isinstance(s, ast.Assign) and dotted(s.targets[0]) == data and isinstance(s.value, ast.Call) and norm_stmt(s.value.func) == f"{t}.{tname}"]
-            if len(jac_st) == 1 and len(dat_st) == 1:
-                js = jac_st[0]
-                acc = dotted(js.targets[0])
-                v = js.value
+            st = _stages(lp, "self.transformers")
+            order_ok = st is not None and st[1] == reverse
+            # one pass through the body: (accumulated Jacobian, running data) -> (J_stage(data) @ Jacobian, stage(data))
+            after = _after_one_pass(lp, [acc, data]) if st is not None else None
+            if after is not None and len(after) == 1:
+                t = st[0]
+                new_acc, new_data = after[0]
+                lr = _product(new_acc)
                 # new stage on the left: J_stage @ acc   (or matmul / dot forms)
-                if isinstance(v, ast.BinOp) and isinstance(v.op, ast.MatMult):
-                    left, right = v.left, v.right
-                elif isinstance(v, ast.Call) and last_attr(v) in ("matmul", "dot") and len(v.args) == 2:
-                    left, right = v.args
-                elif isinstance(v, ast.Call) and last_attr(v) == "dot" and len(v.args) == 1:
-                    left, right = v.func.value, v.args[0]
-                else:
-                    left = right = None
-                prod_ok = left is not None and isinstance(left, ast.Call) and norm_stmt(left.func) == f"{t}.{jname}" and dotted(right) == acc
-                at_ok = prod_ok and left.args and dotted(left.args[0]) == data and dotted(dat_st[0].value.args[0]) == data and js.lineno < dat_st[0].lineno
+                prod_ok = lr is not None and _applies(lr[0], f"{t}.{jname}", None) and norm_stmt(lr[1]) == acc
+                # ``data`` in these expressions is the data at the START of the pass, i.e. the data entering the stage
+                at_ok = prod_ok and _applies(lr[0], f"{t}.{jname}", data) and _applies(new_data, f"{t}.{tname}", data)
         ctx.ob("18.3-pipeline", con, bool(ok and order_ok), f"{jname} must visit the transformers in the order in which {tname} applies them ({'last to first' if reverse else 'first to last'})", node=(loops or [f])[0], stmt=f"{jname}: stages in the order of {tname}")
         ctx.ob("18.3-pipeline", con, bool(prod_ok), "chain rule: the Jacobian of the stage multiplies the accumulated Jacobian on the LEFT (J_stage @ J); the other order is only right when the stage Jacobians commute", node=(loops or [f])[0], stmt=f"{jname}: J = J_stage @ J")
         ctx.ob("18.3-pipeline", con, bool(at_ok), "each stage Jacobian is evaluated at the data entering that stage: the Jacobian statement comes before the data is transformed, both on the running data", node=(loops or [f])[0], stmt=f"{jname}: stage Jacobian at the stage input")
         g = cls.methods[tname]
         lg = [s for s in stmts_of(g) if isinstance(s, ast.For)]
-        okg = len(lg) == 1 and norm_stmt(lg[0].iter) in (("self.transformers[::-1]", "reversed(self.transformers)") if reverse else ("self.transformers",))
+        stg = _stages(lg[0], "self.transformers") if len(lg) == 1 else None
+        okg = stg is not None and stg[1] == reverse
+        if okg:
+            dg = [a.arg for a in g.args.args if a.arg != "self"][0]
+            after = _after_one_pass(lg[0], [dg])
+            rg = [s for s in stmts_of(g) if isinstance(s, ast.Return)]
+            okg = after is not None and len(after) == 1 and _applies(after[0][0], f"{stg[0]}.{tname}", dg) and len(rg) == 1 and dotted(rg[0].value) == dg
         ctx.ob("18.3-pipeline", cname(PIP, "Pipeline", tname), okg, f"{tname} applies the transformers {'last to first' if reverse else 'first to last'}", node=(lg or [g])[0], stmt=f"{tname}: order of the stages")
 
 
@@ -288,7 +581,14 @@ def check_moe(ctx: Ctx) -> None:
     ok = len(st) == 1
     if ok:
         c = next(c for c in ast.walk(st[0].value) if isinstance(c, ast.Call) and last_attr(c) == "predict")
-        i = dotted(c.func.value.slice) if isinstance(c.func.value, ast.Subscript) else None
+        # the local model i: self.regress_models[i], or the element that enumerate(self.regress_models) pairs with i
+        i = dotted(c.func.value.slice) if isinstance(c.func.value, ast.Subscript) and norm_stmt(c.func.value.value) == "self.regress_models" else None
+        if i is None and isinstance(c.func.value, ast.Name):
+            for lp in (s for s in ast.walk(g) if isinstance(s, ast.For) and st[0] in list(ast.walk(s))):
+                tg, it = lp.target, lp.iter
+                if isinstance(tg, ast.Tuple) and len(tg.elts) == 2 and dotted(tg.elts[1]) == c.func.value.id and isinstance(tg.elts[0], ast.Name) and isinstance(it, ast.Call) and dotted(it.func) == "enumerate" and [norm_stmt(a) for a in it.args] == ["self.regress_models"] and not it.keywords:
+                    stores = [n for n in ast.walk(lp) if isinstance(n, ast.Name) and isinstance(n.ctx, ast.Store) and n.id in (tg.elts[0].id, c.func.value.id)]
+                    i = tg.elts[0].id if len(stores) == 2 else None  # neither is re-assigned in the loop
         tgt = st[0].targets[0]
         sl = tgt.slice.elts[1] if isinstance(tgt.slice, ast.Tuple) and len(tgt.slice.elts) == 2 else None
         ok = i is not None and dotted(sl) == i
@@ -334,6 +634,14 @@ def check_openturns_gradients(ctx: Ctx) -> None:
                         elif isinstance(par, ast.Attribute) and par.attr == "T":
                             transposed = True
                             break
+                        elif isinstance(par, ast.Call) and last_attr(par) == "transpose" and par.args and par.args[0] is cur and len(par.args) == 1 and not par.keywords:
+                            transposed = True  # transpose(a)
+                            break
+                        elif isinstance(par, ast.Call) and last_attr(par) == "swapaxes" and not par.keywords and ((par.args and par.args[0] is cur and len(par.args) == 3) or (par.func is cur and len(par.args) == 2)) and sorted(_int(a) % 2 if _int(a) is not None else -1 for a in par.args[-2:]) == [0, 1]:
+                            transposed = True  # swapaxes(a, 0, 1): the two axes of the 2-d gradient exchanged
+                            break
+                        elif isinstance(par, ast.Attribute) and par.attr == "swapaxes" and par.value is cur:
+                            cur = par  # a.swapaxes(...): decided on the call
                         else:
                             break
                     n += 1
